@@ -18,11 +18,12 @@ from .. import core, geo, motlutil
 
 SNAP = 1e-9
 
-INVS = ["TypeOK", "C14_RotatePermutesInterior", "C14_SameAsPose", "C14_PlaceStamps", "C14_WindowExact", "C14_SymInvariant"]
+INVS = ["TypeOK", "C14_RotatePermutesInterior", "C14_SameAsPose", "C14_PlaceStamps", "C14_PlaceListStamps", "C14_WindowExact", "C14_SymInvariant"]
 
 
-def cfg(rot, place, window, sym, mode, invs=INVS):
+def cfg(rot, place, window, sym, mode, invs=INVS, placelist="Empty"):
     lines = ["SPECIFICATION Spec", "CONSTANTS", " RotCases <- %s" % rot, " PlaceCases <- %s" % place,
+             " PlaceListCases <- %s" % placelist,
              " WindowCases <- %s" % window, " SymCases <- %s" % sym, ' EmitMode = "%s"' % mode]
     lines += ["INVARIANT %s" % i for i in invs]
     if mode == "tr":
@@ -142,24 +143,85 @@ def run_place(ctx, case):
             d0 = tuple(int(v) for v in diff[0])
             ctx.fail("C14_PlaceStamps", "%d container voxels differ from the specification; e.g. voxel %s = %r, expected %r" % (
                 len(diff), d0, float(out[d0]), float(want[d0])), case, sig)
-    # the same active convention as Motl.shift_positions: stamped voxel = complete position after shifting by the offset
-    for i in rng.sample(range(n), min(n, 2)):
-        one = cryomotl.Motl(motl.df.iloc[[i]].reset_index(drop=True).copy())
-        for j, cell in enumerate(case["tmpl"]["cells"]):
-            def shifted():
-                m2 = cryomotl.Motl(one.df.copy())
+    # the same active convention as Motl.shift_positions: stamped voxel = complete position after shifting by the offset.
+    # The whole list (with its row labels) is shifted, in place or into a new list.
+    for j in rng.sample(range(len(case["tmpl"]["cells"])), min(3, len(case["tmpl"]["cells"]))):
+        cell = case["tmpl"]["cells"][j]
+        inplace = (case["variant"] + j) % 2 == 0
+
+        def shifted():
+            m2 = cryomotl.Motl(motl.df.copy())
+            if inplace:
                 m2.shift_positions(np.array(cell["o"], dtype=float))
-                return np.asarray(m2.get_coordinates(), dtype=float)[0]
-            got, err = core.call_guarded(shifted)
-            sig2 = {"op": "shift_positions", "poses": "one"}
-            if err is not None:
-                ctx.fail("call_raises", err, case, sig2)
-                break
-            want_p = np.array(case["shifted"][i][j], dtype=float)
-            if not np.all(np.isfinite(got)) or np.max(np.abs(got - want_p)) > SNAP:
-                ctx.fail("C14_SameAsPose", "pose %d shifted by template offset %s has complete position %s, the specification "
-                         "(and the stamp of place_object) say %s" % (i, cell["o"], got.tolist(), want_p.tolist()), case, sig2)
-                break
+            else:
+                m2 = m2.shift_positions(np.array(cell["o"], dtype=float), inplace=False)
+            return np.asarray(m2.get_coordinates(), dtype=float)
+        got, err = core.call_guarded(shifted)
+        sig2 = {"op": "shift_positions", "poses": "one" if n == 1 else "many", "index": index_kind, "inplace": inplace}
+        if err is not None:
+            ctx.fail("call_raises", err, case, sig2)
+            break
+        want_p = np.array([case["shifted"][i][j] for i in range(n)], dtype=float)
+        if got.shape != want_p.shape or not np.all(np.isfinite(got)) or np.max(np.abs(got - want_p)) > SNAP:
+            ctx.fail("C14_SameAsPose", "list shifted by template offset %s has complete positions %s, the specification "
+                     "(and the stamps of place_object) say %s" % (cell["o"], got.tolist()[:4], want_p.tolist()[:4]), case, sig2)
+            break
+    ctx.ran(case)
+
+
+def build_template(tm, rng, tkind=0):
+    S = tm["S"]
+    c = S // 2
+    arr = np.zeros((S, S, S))
+    for cell in tm["cells"]:
+        idx = tuple(c + v for v in cell["o"])
+        if tkind:
+            arr[idx] = (1 if tkind == 3 else rng.choice([1, 1, 7, 100])) if cell["hi"] else (0 if tkind == 3 else rng.choice([0, -1]))
+        else:
+            arr[idx] = rng.choice([1.0, 0.5, 7.0, 0.11, 250.0]) if cell["hi"] else rng.choice([0.05, 0.09, -1.0, 0.0999])
+    return arr.astype([float, np.int8, np.int16, bool][tkind])
+
+
+def run_placelist(ctx, case):
+    """case: {kind: l2_placelist, cdims, tmpls: [{S, cells}], poses: [{pos, r, colour}], placed, variant}: input_object is a
+    list with one template per particle; poses with the same orientation get literally the same Euler angles"""
+    from cryocat import cryomap, cryomotl
+    rng = random.Random(case["variant"])
+    poses = case["poses"]
+    n = len(poses)
+    tkind = (case["variant"] // 7) % 4
+    tmpls = [build_template(t, rng, tkind) for t in case["tmpls"]]
+    euler = {}
+    cols = motlutil.empty_rows(n)
+    for i, p in enumerate(poses):
+        key = tuple(p["r"])
+        if key not in euler:
+            euler[key] = [0.0, 0.0, 0.0] if p["r"] == [1, 2, 3, 1, 1, 1] and case["variant"] % 2 == 0 else geo.euler_for_code(p["r"], rng)
+        sh = [rng.choice([0.0, 0.0, 0.5, -0.25, 1.0]) for _ in range(3)]
+        cols["x"][i], cols["y"][i], cols["z"][i] = [p["pos"][j] - sh[j] for j in range(3)]
+        cols["shift_x"][i], cols["shift_y"][i], cols["shift_z"][i] = sh
+        cols["phi"][i], cols["theta"][i], cols["psi"][i] = euler[key]
+        cols["tomo_id"][i] = 1
+        cols["subtomo_id"][i] = i + 1
+        cols["object_id"][i] = p["colour"]
+    motl = cryomotl.Motl(motlutil.vary_index(motlutil.df_from_cols(cols), case["variant"] // 3))
+    cdims = tuple(case["cdims"])
+    out, err = core.call_guarded(lambda: cryomap.place_object([t.copy() for t in tmpls], motl, volume_shape=cdims))
+    sig = {"op": "place_object", "poses": "many", "template": "list"}
+    if err is not None:
+        ctx.fail("call_raises", err, case, sig)
+    else:
+        out = np.asarray(out, dtype=float)
+        want = np.zeros(cdims)
+        for x, colour in case["placed"]:
+            want[tuple(x)] = float(colour)
+        if out.shape != cdims:
+            ctx.fail("C14_PlaceListStamps", "container of shape %s returned for %s" % (out.shape, cdims), case, sig)
+        elif not np.all(np.isfinite(out)) or np.max(np.abs(out - want)) > 1e-12:
+            diff = np.argwhere(~(np.abs(out - want) <= 1e-12))
+            d0 = tuple(int(v) for v in diff[0])
+            ctx.fail("C14_PlaceListStamps", "%d container voxels differ from the specification; e.g. voxel %s = %r, expected %r" % (
+                len(diff), d0, float(out[d0]), float(want[d0])), case, sig)
     ctx.ran(case)
 
 
@@ -257,7 +319,8 @@ def tt(v):
 
 def spec_expected(ctx, case):
     k = case["kind"]
-    sets = {"RRot": "{}", "RPlace": "{}", "RWindow": "{}", "RSym": "{}"}
+    sets = {"RRot": "{}", "RPlace": "{}", "RWindow": "{}", "RSym": "{}", "RPlaceList": "{}"}
+    tm = lambda t: "[S |-> %d, cells |-> <<%s>>]" % (t["S"], ", ".join("Cell(%s, %s)" % (tt(c["o"]), "TRUE" if c["hi"] else "FALSE") for c in t["cells"]))
     if k == "l2_rotate":
         sets["RRot"] = "{ [dims |-> %s, R |-> FromCode(%s)] }" % (tt(case["dims"]), tt(case["r"]))
     elif k == "l2_place":
@@ -266,6 +329,11 @@ def spec_expected(ctx, case):
                           for p in case["poses"])
         sets["RPlace"] = "{ [cdims |-> %s, tmpl |-> [S |-> %d, cells |-> <<%s>>], poses |-> <<%s>>] }" % (
             tt(case["cdims"]), case["tmpl"]["S"], cells, poses)
+    elif k == "l2_placelist":
+        poses = ", ".join("[pos |-> %s, R |-> FromCode(%s), colour |-> %d]" % (tt(p["pos"]), tt(p["r"]), p["colour"])
+                          for p in case["poses"])
+        sets["RPlaceList"] = "{ [cdims |-> %s, tmpls |-> <<%s>>, poses |-> <<%s>>] }" % (
+            tt(case["cdims"]), ", ".join(tm(t) for t in case["tmpls"]), poses)
     elif k == "l2_window":
         sets["RWindow"] = "{ [vdims |-> %s, centre |-> %s, shape |-> %s] }" % (tt(case["vdims"]), tt(case["centre"]), tt(case["shape"]))
     else:
@@ -273,12 +341,12 @@ def spec_expected(ctx, case):
     path = os.path.join(ctx.sub("replaymod"), "MapGeomReplay.tla")
     with open(path, "w") as fh:
         fh.write("---- MODULE MapGeomReplay ----\nEXTENDS MC_MapGeom\n" + "".join("%s == %s\n" % kv for kv in sets.items()) + "====\n")
-    res = ctx.tlc("MapGeomReplay", cfg("RRot", "RPlace", "RWindow", "RSym", "tr"), name="replayspec", workers=1,
+    res = ctx.tlc("MapGeomReplay", cfg("RRot", "RPlace", "RWindow", "RSym", "tr", placelist="RPlaceList"), name="replayspec", workers=1,
                   extra_modules=[path])
     if len(res.records) != 1:
         raise core.MachineryError("replay: the specification produced %d transitions for one case" % len(res.records))
     out = res.records[0]["out"]
-    field = {"l2_rotate": ["pairs"], "l2_place": ["placed", "shifted"], "l2_window": ["axes"], "l2_sym": ["pairs"]}[k]
+    field = {"l2_rotate": ["pairs"], "l2_place": ["placed", "shifted"], "l2_placelist": ["placed"], "l2_window": ["axes"], "l2_sym": ["pairs"]}[k]
     for f in field:
         if canon(out[f]) != canon(case[f]):
             raise core.MachineryError("replay file disagrees with the specification about %s" % f)
@@ -290,7 +358,7 @@ def canon(x):
         len(x[0]) == 2 and isinstance(x[0][0], list) else json.dumps(x)
 
 
-HANDLERS = {"l2_rotate": run_rotate, "l2_place": run_place, "l2_window": run_window, "l2_sym": run_sym}
+HANDLERS = {"l2_rotate": run_rotate, "l2_place": run_place, "l2_placelist": run_placelist, "l2_window": run_window, "l2_sym": run_sym}
 
 
 def replay(ctx, case):
@@ -505,8 +573,8 @@ def run(ctx):
     ctx.tlc("MapGeomLaws", cfg("Empty", "Empty", "Empty", "Empty", "none", invs=["TypeOK"]), name="laws", workers=W)
     scopes = (ctx.pick("MCRotCases", "MCRotCasesBig"), ctx.pick("MCPlaceCases", "MCPlaceCasesBig"), "MCWindowAll", "MCSymCases")
     # L1: clauses on every state (parallel, nothing printed) ; L2 emission: same scope, one worker
-    ctx.tlc("MC_MapGeom", cfg(*scopes, "none"), name="l1", workers=W)
-    res = ctx.tlc("MC_MapGeom", cfg(*scopes, "tr", invs=["TypeOK"]), name="l2", workers=1)
+    ctx.tlc("MC_MapGeom", cfg(*scopes, "none", placelist="MCPlaceListCases"), name="l1", workers=W)
+    res = ctx.tlc("MC_MapGeom", cfg(*scopes, "tr", invs=["TypeOK"], placelist="MCPlaceListCases"), name="l2", workers=1)
     trs = res.records
     kinds = {}
     for t in trs:
@@ -530,6 +598,13 @@ def run(ctx):
             run_place(ctx, {"kind": "l2_place", "cdims": t["inp"]["cdims"], "tmpl": t["inp"]["tmpl"], "poses": t["inp"]["poses"],
                             "placed": t["out"]["placed"], "shifted": t["out"]["shifted"], "variant": var(i)})
     ctx.exhaustive["L2_place"] = True
+    for t in kinds.get("placelist", []):
+        for rep in range(ctx.pick(1, 3)):
+            i += 1
+            run_placelist(ctx, {"kind": "l2_placelist", "cdims": t["inp"]["cdims"], "tmpls": t["inp"]["tmpls"],
+                                "poses": t["inp"]["poses"], "placed": t["out"]["placed"], "variant": var(i)})
+    if len(kinds.get("placelist", [])) < 100:
+        raise core.MachineryError("MC_MapGeom emitted %d list placements" % len(kinds.get("placelist", [])))
     # centred windows (crop / pad) are always replayed; the grid of off-centre windows is sub-sampled in the quick tier
     centred = [t for t in kinds["window"] if t["inp"]["centre"] == [v // 2 for v in t["inp"]["vdims"]]]
     grid = sorted([t for t in kinds["window"] if t not in centred], key=lambda t: core.stable_hash([seed, t["inp"]]))
